@@ -1,5 +1,7 @@
 import NmVerif.Proto
 import NmVerif.Static
+import NmVerif.StaticMore
+import NmVerif.StaticEval
 /-
   Driver for C11: `c11 rpn=<tok>;<tok>;… shapes=<leaf shape>;… rargs=<run-time argument>;…`
   interprets the program (reverse Polish, tokens written by harness/gen_c11.py) twice at once:
@@ -79,6 +81,122 @@ def axisArg (fields : List String) (st : St) : M (AxisK × Option (List Nat) × 
   | "rts" :: _ => do let (r, st') ← popArg st; let l ← toNats r; pure (.rts, some l, st')
   | "rt" :: n :: _ => do let k ← nat? n; let (r, st') ← popArg st; let l ← toNats r; pure (.rt k, some l, st')
   | _ => .error "bad-axis-arg"
+
+
+/-- integer argument token fields → (kind, run-time value, remaining fields) -/
+def numArg (fields : List String) (st : St) : M (NumK × Nat × List String × St) :=
+  match fields with
+  | "ct" :: v :: rest => do let x ← nat? v; pure (.ct x, x, rest, st)
+  | "rts" :: rest => do
+      let (r, st') ← popArg st
+      let l ← toNats r
+      match l with
+      | [x] => pure (.rt, x, rest, st')
+      | _ => .error "bad-num-rarg"
+  | _ => .error "bad-num-arg"
+
+/-- optional axis written as `axn` (None) | `axc<k>` (k_ct) | `axr<k>` (run-time int k) -/
+def axExt (f : String) : M (AxisK × Option Nat) :=
+  if f == "axn" then pure (.none, none)
+  else if f.startsWith "axc" then do let k ← nat? (f.drop 3).toString; pure (.cts k, some k)
+  else if f.startsWith "axr" then do let k ← nat? (f.drop 3).toString; pure (.rts, some k)
+  else .error s!"bad-axis-ext:{f}"
+
+/-- slice entry: `e` | `r<a>_<b>` | `i<k>` -/
+def slEntry (f : String) : M SlE :=
+  if f == "e" then pure .ell
+  else if f.startsWith "r" then
+    match ((f.drop 1).toString.splitOn "_").map String.toNat? with
+    | [some a, some b] => pure (.rng a b)
+    | _ => .error s!"bad-slice-entry:{f}"
+  else if f.startsWith "i" then do let k ← nat? (f.drop 1).toString; pure (.idx k)
+  else .error s!"bad-slice-entry:{f}"
+
+def lastField (fields : List String) : String := fields.getLast?.getD ""
+
+/-- unary operation: pops the operand, pushes (transfer, reference shape) -/
+def unary (st : St) (tr : SInfo → Option SInfo) (rf : Shape → Option Shape) : M St := do
+  let ((i, s), st) ← pop1 st
+  let o ← need (tr i) "transfer"
+  let t ← need (rf s) "ref-shape"
+  pure { st with stack := (o, t) :: st.stack }
+
+/-- the operations of NmVerif.StaticMore; `none` = not one of them -/
+def stepMore (st : St) (fields : List String) : Option (M St) :=
+  match fields with
+  | "repeat" :: args => some do
+      let (k, r, rest, st) ← numArg args st
+      let (ax, axis) ← axExt (lastField rest)
+      unary st (transferRepeat k ax) (refRepeat r axis)
+  | "pad" :: args => some do
+      let (k, v, st) ← arrArg args st
+      let w ← toNats v
+      unary st (transferPad k) (refPad w)
+  | "cumsum" :: args => some do
+      let (_, v, st) ← axisArg args st
+      match v with
+      | some [a] => unary st transferAccumulate (refAccumulate a)
+      | _ => .error "axis"
+  | "roll" :: args => some do
+      let (k, _, rest, st) ← numArg args st
+      let (ax, axis) ← axExt (lastField rest)
+      unary st (transferRoll k ax) (refRoll axis)
+  | "flip" :: args => some do
+      let (_, v, st) ← axisArg args st
+      let axis : Option Nat := match v with | some (a :: _) => some a | _ => none
+      unary st transferFlip (refFlip axis)
+  | "moveaxis" :: "ct" :: v :: _ => some do
+      match ← nats? v with
+      | [src, dst] => unary st (transferMoveaxis (some (src, dst))) (refMoveaxis src dst)
+      | _ => .error "bad-moveaxis"
+  | "moveaxis" :: "rts" :: _ => some do
+      let (r, st) ← popArg st
+      match ← toNats r with
+      | [dst] => unary st (transferMoveaxis none) (refMoveaxis 0 dst)
+      | _ => .error "bad-moveaxis"
+  | "take" :: args => some do
+      let (k, v, st) ← arrArg args st
+      let (ax, axis) ← axExt (lastField args)
+      match axis with
+      | some a => unary st (transferTake k ax) (refTake v.length a)
+      | none => .error "take-axis-none"
+  | "slice" :: "sl" :: es => some do
+      let ents ← es.mapM slEntry
+      unary st (transferSlice ents) (refSlice ents)
+  | "slice" :: "slr" :: _ => some do
+      let (r, st) ← popArg st
+      match ← toNats r with
+      | [x] => let ents := [SlE.rng 0 x, SlE.ell]; unary st (transferSlice ents) (refSlice ents)
+      | _ => .error "bad-slice"
+  | "atleast_3d" :: _ => some (unary st (transferAtleastNd 3) (fun s => some (refAtleastNd 3 s)))
+  | "mulscalar" :: _ => some (unary st transferMulScalar some)
+  | "matmul" :: _ => some do
+      let ((j, sb), st) ← pop1 st
+      let ((i, sa), st) ← pop1 st
+      let o ← need (transferMatmul i j) "transfer"
+      let t ← need (refMatmul sa sb) "ref-shape"
+      pure { st with stack := (o, t) :: st.stack }
+  | name :: pat :: _ =>
+    if name == "where" || name == "bcast3" then some do
+      -- operand pattern: a = first array, b = second array, s = number literal
+      let chars := pat.toList
+      let (b?, st) ← (if chars.contains 'b' then do let (x, st') ← pop1 st; pure (some x, st') else pure (none, st) : M (Option (SInfo × Shape) × St))
+      let (a, st) ← pop1 st
+      let ops ← chars.mapM (fun ch => match ch with
+        | 'a' => pure a
+        | 'b' => need b? "pattern"
+        | 's' => pure (scalarInfo, ([] : Shape))
+        | _ => .error "bad-pattern")
+      match ops with
+      | [c, x, y] =>
+        let (o, t) ← (if name == "where" then do
+            let o ← need (transferWhere c.1 x.1 y.1) "transfer"; let t ← need (refBroadcast3 c.2 x.2 y.2) "ref-shape"; pure (o, t)
+          else do
+            let o ← need (transferBroadcast3 c.1 x.1 y.1) "transfer"; let t ← need (refBroadcast3 c.2 x.2 y.2) "ref-shape"; pure (o, t) : M (SInfo × Shape))
+        pure { st with stack := (o, t) :: st.stack }
+      | _ => .error "bad-pattern"
+    else none
+  | _ => none
 
 def step (st : St) (tok : String) : M St := do
   let fields := tok.splitOn "."
@@ -163,7 +281,10 @@ def step (st : St) (tok : String) : M St := do
     let o ← need (transferConcat k i j) "transfer"
     let t ← need (refConcat axis sa sb) "ref-shape"
     pure { st with stack := (o, t) :: st.stack }
-  | _ => .error s!"unknown-token:{tok}"
+  | _ =>
+    match stepMore st fields with
+    | some r => r
+    | none => .error s!"unknown-token:{tok}"
 
 def run (rpn : String) (shapes : List (List Nat)) (rargs : List (List Int)) : String :=
   let toks := (rpn.splitOn ";").filter (· ≠ "")
@@ -171,7 +292,12 @@ def run (rpn : String) (shapes : List (List Nat)) (rargs : List (List Int)) : St
   | .error e => s!"M unsupported:{e}"
   | .ok st =>
     match st.stack with
-    | [(i, s)] => s!"M {fmtInfo i} shape={fmtNats s}"
+    | [(i, s)] =>
+      -- the container the eval resolver chooses for this view type, described by the knowledge of the RESULT type
+      let res := match resolveEval i with
+        | some r => s!" rk={fmtShapeK r.info.shape} rfz={fmtOptNat r.info.fixedSize} rbz={fmtOptNat r.info.boundedSize}"
+        | none => " rk=? rfz=? rbz=?"
+      s!"M {fmtInfo i} shape={fmtNats s}{res}"
     | _ => "M unsupported:stack"
 
 def handle : Handler := fun op a =>
